@@ -124,6 +124,19 @@ def run(tier, seed, model_ok):
             for g in mates[:2]:
                 ctx.append('.device %s\n%s\n%s' % (dname, g.src, f.src)); cmeta.append(('allowed form of the same mnemonic first', 'ERR'))
                 ctx.append('.device %s\n%s\n%s\n%s' % (dname, g.src, g.src, f.src)); cmeta.append(('allowed form of the same mnemonic twice first', 'ERR'))
+        # the gate reaches every place an instruction can come from: a macro body, a second code section, a taken
+        # conditional branch, a labelled line, an operand written through an alias
+        for j, f in enumerate(den[:: max(1, len(den) // 3)][:3]):
+            wrap = [('.macro c13m\n%s\n.endm\n c13m' % f.src, 'inside a macro body'),
+                    (' nop\n.dseg\n.byte 1\n.cseg\n%s' % f.src, 'in a second code section'),
+                    ('.org 0x20\n%s' % f.src, 'after .org'),
+                    ('.if 1\n%s\n.endif' % f.src, 'inside a taken conditional'),
+                    ('.if 0\n nop\n.else\n%s\n.endif' % f.src, 'inside a taken .else'),
+                    ('c13l: %s' % f.src.strip(), 'on a labelled line'),
+                    ('.macro c13o\n.macro c13i\n%s\n.endm\n.endm\n c13o\n c13i' % f.src, 'inside a macro defined by a macro')]
+            for t, what in wrap[j::1][:4] if '\n' not in f.src.strip() else []:
+                ctx.append('.device %s\n%s' % (dname, t)); cmeta.append((what, 'ERR'))
+                ctx.append('%s\n.device %s' % (t, dname)); cmeta.append((what + ', .device at the end', 'ERR'))
         for f in den[:: max(1, len(den) // 4)][:4]:
             ctx.append(' nop\n.device %s\n%s' % (dname, f.src)); cmeta.append(('.device after the first instruction', 'ERR'))
             ctx.append(' nop\n%s\n.device %s' % (f.src, dname)); cmeta.append(('.device at the end', 'ERR'))
